@@ -299,6 +299,11 @@ impl AOracle for Oracle {
                 return Err(Violation::new("c02.wire_secret", name, format!("encoded report {:?} (t={}) contains the {} in the clear at offset {}", s.id, g.threshold, name, off)));
             }
         }
+        if let Some(pr) = layout::parse_report(&s.bytes) {
+            if pr.share.x.is_zero() {
+                return Err(Violation::new("c02.wire_secret", "share_point_zero", format!("report {:?} (t={}) carries a share at x = 0: its share value IS the sharing key", s.id, g.threshold)));
+            }
+        }
         ctx.stats.probe("reports_scanned");
         Ok(())
     }
@@ -329,6 +334,7 @@ impl Property for C02 {
         gen.min_threshold = 2;
         gen.thresholds.retain(|t| *t >= 2);
         gen.relatives = true;
+        gen.entropy_burst = 30;
         gen.count_offsets = vec![-1, -1, -2, 0, 1, 1, 2, 3];
         gen.aux_kinds = vec![-1, 0, 4, 100, 300];
         // every 40th run: one group with a threshold that does not fit one byte and t+1..t+2 clients,
